@@ -52,6 +52,8 @@ FIXED = {
     "fix: accept the one-byte method ids of the branch filters": (["C06"], "branch filters under 7-Zip's short ids (04..09) rejected as unsupported"),
     "fix: write only the defined substream CRCs": (["C08", "C07"], "append to an archive without member CRCs wrote undefined CRC words: header unreadable"),
     "fix: appending only directories or empty entries to an archive no longer fails in flush": (["C08"], "append session writing no stream raised TypeError in flush_archive and left no valid header"),
+    "fix: a write call whose source cannot be stored does not leave a half-registered member": (["C15"], "source failing with EACCES/EIO left a half-registered member: archive unreadable after close, next write retried the failed source"),
+    "fix: Deflate, Deflate64, ZStandard and Brotli decoders return output in bounded pieces": (["C20", "C05"], "Deflate/Deflate64/ZStandard/Brotli decoders ignored max_length: 1 GiB of zeros peaked at about 3 GiB RSS"),
     "fix: appending to an archive without packed streams keeps its members": (["C08"], "append to a directory-only archive lost the old members / raised IndexError"),
 }
 
